@@ -24,7 +24,8 @@
                     enc    : bytes id -> string (base64 text),   dec : string -> bytes id | "ERR"].
    Hint (what _deserialize_value distinguishes):  [k |-> "prim"|"any"|"other"|"bytes"|"bytesio"],
        [k |-> "opt"|"list"|"dict", of |-> hint], [k |-> "dc", c |-> class].   "other" = anything the
-       code treats like a primitive (PEP 604 unions `X | None`, Protocol classes, unregistered classes).
+       code treats like a primitive (PEP 604 unions `X | None`, Protocol classes, unregistered classes);
+       such a hint carries g = the hint used to GENERATE well-typed values for it (SerialGen).
 
    Deviations (named wrong steps of today's code; {} = reference design):
      "MarkerBeforeHint"   Deser tests the marker keys before it looks at the hint, so a Dict[...]-typed
@@ -60,7 +61,6 @@ Arr(xs) == [t |-> "arr", xs |-> xs]
 
 Keys(kv) == { kv[i][1] : i \in DOMAIN kv }
 Get(kv, k) == kv[CHOOSE i \in DOMAIN kv : kv[i][1] = k][2]
-MapSeq(s, Op(_)) == [i \in 1..Len(s) |-> Op(s[i])]
 
 B64Enc(E, b) == IF b \in DOMAIN E.enc THEN E.enc[b] ELSE "?"
 B64Dec(E, s) == IF s \in DOMAIN E.dec THEN E.dec[s] ELSE "ERR"
